@@ -83,7 +83,8 @@ class Ctx:
         return os.path.join(self.work, name)
 
     # ------------------------------------------------------------------ harness
-    def build(self):
+    def build(self, crate=None):
+        crate = crate or self.crate
         t = time.time()
         env = dict(os.environ)
         env["CARGO_NET_OFFLINE"] = "true"
@@ -98,7 +99,7 @@ class Ctx:
         if not os.path.exists(lock_dst) and os.path.exists(lock_src):
             shutil.copy(lock_src, lock_dst)
         for attempt in range(6):
-            p = subprocess.run(["cargo", "build", "--release", "--offline", "-p", self.crate], cwd=self.harness_dir,
+            p = subprocess.run(["cargo", "build", "--release", "--offline", "-p", crate], cwd=self.harness_dir,
                                env=env, stdout=subprocess.PIPE, stderr=subprocess.STDOUT, text=True)
             if p.returncode != 0 and "failed to load manifest for workspace member" in p.stdout and attempt < 5:
                 time.sleep(10)   # a sibling crate directory is being created right now
@@ -107,15 +108,16 @@ class Ctx:
         if p.returncode != 0:
             log(p.stdout[-6000:])
             raise ToolError("cargo build of the harness failed")
-        log("[build] harness crate %s rebuilt from %s working tree in %.1fs" % (self.crate, self.repo, time.time() - t))
+        log("[build] harness crate %s rebuilt from %s working tree in %.1fs" % (crate, self.repo, time.time() - t))
 
-    def harness(self, *args, timeout=3600, check=True):
+    def harness(self, *args, timeout=3600, check=True, crate=None):
+        crate = crate or self.crate
         env = dict(os.environ)
         env["VERIF_SEED"] = str(self.seed)
         env["VERIF_TIER"] = self.tier
         t = time.time()
         try:
-            p = subprocess.run([os.path.join(self.harness_dir, "target", "release", self.crate)] + [str(a) for a in args], env=env,
+            p = subprocess.run([os.path.join(self.harness_dir, "target", "release", crate)] + [str(a) for a in args], env=env,
                                stdout=subprocess.PIPE, stderr=subprocess.PIPE, text=True,
                                timeout=timeout)
         except subprocess.TimeoutExpired:
